@@ -197,15 +197,12 @@ func (w *World) eachIteration(fi *FuncInfo, g *cfg.CFG, r *ast.RangeStmt, target
 				}
 			}
 			if cond != nil {
-				pol := i == 0
-				allowed := false
-				for _, sk := range skips {
-					if sk.Pol == pol && sk.Cond(cond) {
-						allowed = true
-						sites = append(sites, w.pos(cond.Pos()))
-					}
-				}
-				if allowed {
+				// what is known on this edge, as atomic facts: negations stripped, the
+				// conjuncts of a true `&&` and the disjuncts of a false `||` taken one by one.
+				// A skip is allowed when any one of them is an allowed reason (the others
+				// only narrow it).
+				if skipAllowed(cond, i == 0, skips) {
+					sites = append(sites, w.pos(cond.Pos()))
 					continue
 				}
 			}
@@ -506,4 +503,137 @@ func (w *World) astMustReach(h *FuncInfo, target func(ast.Node) bool, errExitOK 
 	}
 	visit(g.Blocks[0])
 	return ok
+}
+
+// skipAllowed: leaving through the edge "cond evaluated to pol" is an allowed skip.
+// Negations are stripped; on the true edge of `a && b` (both hold) one allowed reason
+// suffices, the other only narrows it; on the true edge of `a || b` (either may be the
+// one that holds) each must be an allowed reason by itself; dually for false edges.
+func skipAllowed(cond ast.Expr, pol bool, skips []skipSpec) bool {
+	switch x := ast.Unparen(cond).(type) {
+	case *ast.UnaryExpr:
+		if x.Op == token.NOT {
+			return skipAllowed(x.X, !pol, skips)
+		}
+	case *ast.BinaryExpr:
+		switch x.Op {
+		case token.LAND:
+			if pol {
+				return skipAllowed(x.X, true, skips) || skipAllowed(x.Y, true, skips)
+			}
+			return skipAllowed(x.X, false, skips) && skipAllowed(x.Y, false, skips)
+		case token.LOR:
+			if pol {
+				return skipAllowed(x.X, true, skips) && skipAllowed(x.Y, true, skips)
+			}
+			return skipAllowed(x.X, false, skips) || skipAllowed(x.Y, false, skips)
+		}
+	}
+	for _, f := range edgeFactsAST(cond, pol) {
+		for _, sk := range skips {
+			if !sk.TypeSwitchMiss && sk.Pol == f.Pol && sk.Cond(f.Expr) {
+				return true
+			}
+		}
+	}
+	return false
+}
+
+type astFact struct {
+	Expr ast.Expr
+	Pol  bool
+}
+
+// edgeFactsAST decomposes "cond evaluated to pol" into atomic facts. `x != y` is reported as
+// the equality x == y with the polarity flipped (see eqOperands).
+func edgeFactsAST(cond ast.Expr, pol bool) []astFact {
+	switch x := ast.Unparen(cond).(type) {
+	case *ast.UnaryExpr:
+		if x.Op == token.NOT {
+			return edgeFactsAST(x.X, !pol)
+		}
+	case *ast.BinaryExpr:
+		switch {
+		case x.Op == token.LAND && pol, x.Op == token.LOR && !pol:
+			return append(edgeFactsAST(x.X, pol), edgeFactsAST(x.Y, pol)...)
+		case x.Op == token.LAND || x.Op == token.LOR:
+			return nil // one of the operands failed / held: nothing certain about either
+		case x.Op == token.NEQ:
+			return []astFact{{x, !pol}}
+		}
+	}
+	return []astFact{{ast.Unparen(cond), pol}}
+}
+
+// eqOperands: the operands of an equality fact (written == or !=; the fact's polarity says
+// whether they are equal).
+func eqOperands(e ast.Expr) (ast.Expr, ast.Expr, bool) {
+	be, ok := ast.Unparen(e).(*ast.BinaryExpr)
+	if !ok || (be.Op != token.EQL && be.Op != token.NEQ) {
+		return nil, nil, false
+	}
+	return be.X, be.Y, true
+}
+
+// isNilIdent: e is the predeclared nil.
+func isNilIdent(info *types.Info, e ast.Expr) bool {
+	id, ok := ast.Unparen(e).(*ast.Ident)
+	if !ok {
+		return false
+	}
+	_, isNil := info.Uses[id].(*types.Nil)
+	return isNil
+}
+
+// nilTestOf: the fact compares with nil an expression whose type prints as typeStr
+// (module-relative); the fact's polarity says whether it is nil.
+func (w *World) nilTestOf(fi *FuncInfo, typeStr string) func(ast.Expr) bool {
+	info := fi.Pkg.TypesInfo
+	return func(e ast.Expr) bool {
+		x, y, ok := eqOperands(e)
+		if !ok {
+			return false
+		}
+		if isNilIdent(info, x) {
+			x, y = y, x
+		}
+		if !isNilIdent(info, y) {
+			return false
+		}
+		t := info.TypeOf(x)
+		return t != nil && short(types.TypeString(t, nil)) == typeStr
+	}
+}
+
+// commaOkOf: the fact is the `ok` of `v, ok := x.(T)` (kind "assert") or `v, ok := m[k]`
+// (kind "lookup"), whatever the variable is called; typeStr, when not empty, is T / the
+// map's type.
+func (w *World) commaOkOf(fi *FuncInfo, kind, typeStr string) func(ast.Expr) bool {
+	info := fi.Pkg.TypesInfo
+	return func(e ast.Expr) bool {
+		id, ok := ast.Unparen(e).(*ast.Ident)
+		if !ok {
+			return false
+		}
+		obj := info.ObjectOf(id)
+		fd := w.defsOf(w.ownerOf(fi, e))
+		src, isTuple := fd.tupleOf[obj]
+		if !isTuple || fd.tupleIx[obj] != 1 {
+			return false
+		}
+		switch x := ast.Unparen(src).(type) {
+		case *ast.TypeAssertExpr:
+			if kind != "assert" {
+				return false
+			}
+			return typeStr == "" || short(types.TypeString(info.TypeOf(x.Type), nil)) == typeStr
+		case *ast.IndexExpr:
+			if kind != "lookup" {
+				return false
+			}
+			t := info.TypeOf(x.X)
+			return typeStr == "" || (t != nil && short(types.TypeString(t, nil)) == typeStr)
+		}
+		return false
+	}
 }
